@@ -17,58 +17,67 @@ def stretchRange {K : Type} (ofNat : Nat → K) : Option K → Option K → K ×
   | some a, none => (ofNat 0, a)
   | some a, some b => (a, b)
 
-/-- `stretch.stretch` (current source), pointwise at `p`, before the final cast, over every linearly ordered field:
+/-- `stretch.stretch` (current source), pointwise at `p`, INCLUDING the casts, over every linearly ordered field:
     with `mn = img.min()` and `ptp = np.ptp(img - mn)` (any values with `0 ≤ ptp`, as a peak-to-peak always is), the
-    result is what `C20.stretchList` computes for that element — `lo` for a constant image, otherwise
-    `capHi lo hi (stretchCore mn ptp lo hi x)` — with `(lo, hi)` the range resolved from the optional arguments.
-    `astype` keeps values (`hast`: the float conversion and the final cast are modelled separately, `truncF`), `np.zeros` is 0.
-    Fixes the default-argument cascade, the order subtract-min / scale / add-min / cap, the scale factor
-    `(max − min)/ptp`, the `if min:` shortcuts and the cap `np.minimum(img, max)` under `max >= min`. -/
+    result is the cast to the requested dtype of what `C20.stretchList` computes for that element — `lo` for a constant
+    image, otherwise `capHi lo hi (stretchCore mn ptp lo hi x)` — with `(lo, hi)` the range resolved from the optional
+    arguments. `cast d` is what `astype(d)` does to one value (`hast`; the identity for `np.double`, `hdbl`; `C20.castInt`
+    in the driver's model); `np.zeros` is 0 (`hz`), the store `img[...] = min` into the fresh `np.zeros(shape, dtype)` array
+    converts `min` like `astype` (`hfill` — the point of the repair 4e554a9), and `cast d 0 = 0` (`hc0`).
+    Fixes the default-argument cascade, the order subtract-min / scale / add-min / cap / cast, the scale factor
+    `(max − min)/ptp`, the `if min:` shortcuts, the cap `np.minimum(img, max)` under `max >= min`, and that the
+    constant-image branch returns `dtype(min)` everywhere. -/
 theorem pybody_stretch_stretch_eq_model {K X D Sh : Type} [Field K] [LinearOrder K] [IsStrictOrderedRing K]
-    (ofInt : Int → K) (flit : Nat → Nat → K) (P : StretchPrims K X D Sh)
-    (hast : ∀ g d, P.astype g d = g) (hz : ∀ sh d q, P.zeros sh d q = 0)
-    (img : X → K) (arg0 arg1 : Option K) (dtype : D) (p : X)
+    (ofInt : Int → K) (flit : Nat → Nat → K) (P : StretchPrims K X D Sh) (cast : D → K → K)
+    (hast : ∀ g d q, P.astype g d q = cast d (g q)) (hdbl : ∀ x, cast P.double x = x)
+    (hz : ∀ sh d q, P.zeros sh d q = 0)
+    (img : X → K) (arg0 arg1 : Option K) (dtype : D)
+    (hfill : ∀ sh v q, P.fill (P.zeros sh dtype) v q = cast dtype v) (hc0 : cast dtype 0 = 0) (p : X)
     (hptp : 0 ≤ P.ptp (fun q => img q - P.min_of img)) :
     stretch_stretch (fun n => (n : K)) ofInt flit P img arg0 arg1 dtype p =
       (let lo := (stretchRange (fun n => (n : K)) arg0 arg1).1
        let hi := (stretchRange (fun n => (n : K)) arg0 arg1).2
        let mn := P.min_of img
        let ptp := P.ptp (fun q => img q - mn)
-       if 0 < ptp then capHi lo hi (stretchCore mn ptp lo hi (img p)) else lo) := by
+       cast dtype (if 0 < ptp then capHi lo hi (stretchCore mn ptp lo hi (img p)) else lo)) := by
+  have hA : P.astype img P.double = img := funext fun q => by rw [hast, hdbl]
   generalize hm : P.min_of img = mn at hptp ⊢
   generalize ht' : P.ptp (fun q => img q - mn) = t at hptp
   have hcases : t = 0 ∨ 0 < t := (eq_or_lt_of_le hptp).imp Eq.symm id
   cases arg0 with
   | none =>
-    simp only [stretch_stretch, stretchRange, hast, hm, ht', capHi, stretchCore]
+    simp only [stretch_stretch, stretchRange, hA, hm, ht', capHi, stretchCore]
     rcases hcases with h0 | hpos
-    · subst h0; simp [hz]
+    · subst h0; simp [hz, hc0]
     · have hne : t ≠ 0 := ne_of_gt hpos
-      simp [hne, hpos]
+      have h255 : ¬ ((255 : K) < 0) := by norm_num
+      simp [hne, hpos, hast, h255]
   | some a =>
     cases arg1 with
     | none =>
-      simp only [stretch_stretch, stretchRange, hast, hm, ht', capHi, stretchCore]
+      simp only [stretch_stretch, stretchRange, hA, hm, ht', capHi, stretchCore]
       rcases hcases with h0 | hpos
-      · subst h0; simp [hz]
+      · subst h0; simp [hz, hc0]
       · have hne : t ≠ 0 := ne_of_gt hpos
         by_cases hh : (0 : K) ≤ a
-        · simp [hne, hpos, hh, not_lt.mpr hh]
-        · simp [hne, hpos, hh, not_le.mp hh]
+        · simp [hne, hpos, hh, not_lt.mpr hh, hast]
+        · simp [hne, hpos, hh, not_le.mp hh, hast]
     | some b =>
-      simp only [stretch_stretch, stretchRange, hast, hm, ht', capHi, stretchCore]
+      simp only [stretch_stretch, stretchRange, hA, hm, ht', capHi, stretchCore]
       rcases hcases with h0 | hpos
       · subst h0
-        by_cases hl : a = 0 <;> simp [hz, hl]
+        by_cases hl : a = 0
+        · subst hl; simp [hz, hc0]
+        · simp [hfill, hl]
       · have hne : t ≠ 0 := ne_of_gt hpos
         by_cases hl : a = 0
         · subst hl
           by_cases hh : (0 : K) ≤ b
-          · simp [hne, hpos, hh, not_lt.mpr hh]
-          · simp [hne, hpos, hh, not_le.mp hh]
+          · simp [hne, hpos, hh, not_lt.mpr hh, hast]
+          · simp [hne, hpos, hh, not_le.mp hh, hast]
         · by_cases hh : a ≤ b
-          · simp [hne, hpos, hl, hh, not_lt.mpr hh]
-          · simp [hne, hpos, hl, hh, not_le.mp hh]
+          · simp [hne, hpos, hl, hh, not_lt.mpr hh, hast]
+          · simp [hne, hpos, hl, hh, not_le.mp hh, hast]
 
 section list
 variable {K : Type} [Field K] [LinearOrder K] [IsStrictOrderedRing K]
@@ -92,28 +101,57 @@ theorem pybody_le_maxL (m : K) : ∀ xs : List K, m ≤ maxL m xs
     · exact pybody_le_maxL m xs
 
 /-- … and on a whole (non-empty) image given as the list of its pixels, with `img.min()` / `np.ptp` instantiated by the
-    model's `minL` / `maxL` folds: the translated body, mapped over the pixels, IS `C20.stretchList` — the definition the
-    driver runs (before the final cast). -/
+    model's `minL` / `maxL` folds and `astype(d)` / `a[...] = v` by an elementwise `cast d`: the translated body, mapped over
+    the pixels, IS `C20.stretchList` followed by the cast — the shape of `C20.stretchIntG`, the definition the driver runs
+    (`cast dt = castInt trunc dt`), see `pybody_stretch_stretch_eq_stretchIntG`. -/
 theorem pybody_stretch_stretch_eq_stretchList {D Sh : Type} (ofInt : Int → K) (flit : Nat → Nat → K)
-    (x0 : K) (rest : List K) (arg0 arg1 : Option K) (dtype dbl : D) (sh : Sh) :
+    (cast : D → K → K) (dbl : D) (hdbl : ∀ x, cast dbl x = x)
+    (x0 : K) (rest : List K) (arg0 arg1 : Option K) (dtype : D) (hc0 : cast dtype 0 = 0) (sh : Sh) :
     (x0 :: rest).map (stretch_stretch (fun n => (n : K)) ofInt flit
-        ({ astype := fun g _ => g, double := dbl, min_of := fun _ => minL x0 rest,
+        ({ astype := fun g d q => cast d (g q), double := dbl, min_of := fun _ => minL x0 rest,
            ptp := fun _ => maxL (x0 - minL x0 rest) (rest.map (· - minL x0 rest)),
-           shape := fun _ => sh, zeros := fun _ _ _ => 0 } : StretchPrims K K D Sh)
+           shape := fun _ => sh, zeros := fun _ _ _ => 0, fill := fun _ v _ => cast dtype v } : StretchPrims K K D Sh)
         (fun x => x) arg0 arg1 dtype)
-      = stretchList (x0 :: rest) (stretchRange (fun n => (n : K)) arg0 arg1).1 (stretchRange (fun n => (n : K)) arg0 arg1).2 := by
+      = (stretchList (x0 :: rest) (stretchRange (fun n => (n : K)) arg0 arg1).1
+          (stretchRange (fun n => (n : K)) arg0 arg1).2).map (cast dtype) := by
   have hptp : 0 ≤ maxL (x0 - minL x0 rest) (rest.map (· - minL x0 rest)) :=
     le_trans (sub_nonneg.mpr (pybody_minL_le x0 rest)) (pybody_le_maxL _ _)
   have h := fun x => pybody_stretch_stretch_eq_model ofInt flit
-    ({ astype := fun g _ => g, double := dbl, min_of := fun _ => minL x0 rest,
+    ({ astype := fun g d q => cast d (g q), double := dbl, min_of := fun _ => minL x0 rest,
        ptp := fun _ => maxL (x0 - minL x0 rest) (rest.map (· - minL x0 rest)),
-       shape := fun _ => sh, zeros := fun _ _ _ => 0 } : StretchPrims K K D Sh)
-    (fun _ _ => rfl) (fun _ _ _ => rfl) (fun x => x) arg0 arg1 dtype x hptp
+       shape := fun _ => sh, zeros := fun _ _ _ => 0, fill := fun _ v _ => cast dtype v } : StretchPrims K K D Sh)
+    cast (fun _ _ _ => rfl) hdbl (fun _ _ _ => rfl) (fun x => x) arg0 arg1 dtype (fun _ _ _ => rfl) hc0 x hptp
   rw [funext h]
   simp only [stretchList]
   split
-  · rfl
-  · simp
+  · simp [List.map_map, Function.comp_def]
+  · simp [List.map_map, Function.comp_def]
+
+omit [LinearOrder K] [IsStrictOrderedRing K] in
+/-- the optional Python integers of the call, embedded: `stretchRange` is the model's `decodeArgs` -/
+theorem pybody_stretchRange_decodeArgs (arg0 arg1 : Option Int) :
+    stretchRange (fun n => (n : K)) (arg0.map fun z => (z : K)) (arg1.map fun z => (z : K))
+      = (((decodeArgs arg0 arg1).1 : K), ((decodeArgs arg0 arg1).2 : K)) := by
+  cases arg0 <;> cases arg1 <;> simp [stretchRange, decodeArgs]
+
+/-- `stretch(img, arg0, arg1, dtype)` for an integer / bool dtype, as the driver runs it: the translated body mapped over
+    the pixels of a non-empty image = `C20.stretchIntG` (values embedded back into the scalars), for every C conversion
+    `trunc` with `castInt trunc dt 0 = 0`. `none : Option DT` stands for `np.double`. -/
+theorem pybody_stretch_stretch_eq_stretchIntG {Sh : Type} (ofInt : Int → K) (flit : Nat → Nat → K) (trunc : K → Int)
+    (x0 : K) (rest : List K) (arg0 arg1 : Option Int) (dt : DT) (h0 : castInt trunc dt 0 = 0) (sh : Sh) :
+    let cast : Option DT → K → K := fun d y => match d with | none => y | some d => ((castInt trunc d y : Int) : K)
+    (x0 :: rest).map (stretch_stretch (fun n => (n : K)) ofInt flit
+        ({ astype := fun g d q => cast d (g q), double := none, min_of := fun _ => minL x0 rest,
+           ptp := fun _ => maxL (x0 - minL x0 rest) (rest.map (· - minL x0 rest)),
+           shape := fun _ => sh, zeros := fun _ _ _ => 0, fill := fun _ v _ => cast (some dt) v }
+          : StretchPrims K K (Option DT) Sh)
+        (fun x => x) (arg0.map fun z => (z : K)) (arg1.map fun z => (z : K)) (some dt))
+      = (stretchIntG (fun z => (z : K)) trunc dt (x0 :: rest) arg0 arg1).map (Int.cast : Int → K) := by
+  intro cast
+  have h := pybody_stretch_stretch_eq_stretchList ofInt flit cast none (fun _ => rfl) x0 rest
+    (arg0.map fun z => (z : K)) (arg1.map fun z => (z : K)) (some dt) (by simp [cast, h0]) sh
+  rw [h, pybody_stretchRange_decodeArgs]
+  simp [stretchIntG, List.map_map, Function.comp_def, cast]
 
 end list
 
@@ -129,51 +167,67 @@ def pyXyz2rgbM (flit : Nat → Nat → K) : List (List K) :=
   [[flit 32406 4, -(flit 15372 4), -(flit 4986 4)], [-(flit 9689 4), flit 18758 4, flit 415 4],
    [flit 557 4, -(flit 204 3), flit 1057 3]]
 
-/-- `colors.rgb2xyz` (current source) = `_convert` of the channel values decoded by the model's `srgbToLinearG`
-    (`x = c/255`, `((x + 0.055)/(1 + 0.055))^2.4` above the knee `0.04045`, `x/12.92` at or below it — `lowBelow = true`),
-    with the source's matrix: decoding first, matrix second. Every scalar type, power function, `_convert`, image. -/
+/-- `colors.rgb2xyz` (current source) = `_convert` (with the caller's optional `dtype`) of the channel values decoded by
+    the model's `srgbToLinearG` (`x = c/255`, `((x + 0.055)/(1 + 0.055))^2.4` above the knee `0.04045`, `x/12.92` at or
+    below it — `lowBelow = true`), with the source's matrix: decoding first, matrix second. Every scalar type, power
+    function, `_convert`, image. -/
 theorem pybody_colors_rgb2xyz_eq_model (ofNat : Nat → K) (ofInt : Int → K) (flit : Nat → Nat → K) (P : ColorPrims K X D)
-    (rgb : X → K) (dtype : D) :
+    (rgb : X → K) (dtype : Option D) :
     colors_rgb2xyz ofNat ofInt flit P rgb dtype =
       P.convert (fun p => srgbToLinearG P.pow (ofNat 1) (ofNat 255) (flit 55 3) (flit 24 1) (flit 1292 2) (flit 4045 5) true (rgb p))
         (pyRgb2xyzM flit) dtype := by
   simp only [colors_rgb2xyz, srgbToLinearG, pyRgb2xyzM, decide_eq_true_eq, if_true]
 
-/-- `colors.xyz2rgb` (current source) = the model's `linearToSrgbG` (`(1 + 0.055)·v^(1/2.4) − 0.055` above the knee
-    `0.0031308`, `12.92·v` at or below it, times 255) applied to `_convert` of the input with the source's matrix:
-    matrix first, encoding second. -/
+/-- `colors.xyz2rgb` (current source, after the repair 13140a5) = the model's `linearToSrgbG` (`(1 + 0.055)·v^(1/2.4) − 0.055`
+    above the knee `0.0031308`, `12.92·v` at or below it, times 255) applied to `_convert(xyz, M, None)` — the matrix is
+    applied WITHOUT any cast of the linear intermediate — and only then `astype(dtype)` of the sRGB values when a dtype
+    was requested: matrix first, encoding second, cast last. -/
 theorem pybody_colors_xyz2rgb_eq_model (ofNat : Nat → K) (ofInt : Int → K) (flit : Nat → Nat → K) (P : ColorPrims K X D)
-    (xyz : X → K) (dtype : D) :
+    (xyz : X → K) (dtype : Option D) :
     colors_xyz2rgb ofNat ofInt flit P xyz dtype =
-      fun p => linearToSrgbG P.pow (ofNat 1) (flit 24 1) (flit 55 3) (flit 1292 2) (flit 31308 7) (ofNat 255) true
-        (P.convert xyz (pyXyz2rgbM flit) dtype p) := by
-  simp only [colors_xyz2rgb, linearToSrgbG, pyXyz2rgbM, decide_eq_true_eq, if_true]
+      (let enc : X → K := fun p =>
+          linearToSrgbG P.pow (ofNat 1) (flit 24 1) (flit 55 3) (flit 1292 2) (flit 31308 7) (ofNat 255) true
+            (P.convert xyz (pyXyz2rgbM flit) none p)
+       match dtype with
+       | none => enc
+       | some d => P.astype enc d) := by
+  cases dtype <;> simp only [colors_xyz2rgb, linearToSrgbG, pyXyz2rgbM, decide_eq_true_eq, if_true]
 
-/-- `_convert` on an image whose positions are (pixel, channel): the 3×3 matrix times the channel vector of the pixel -/
-def pixConvert {Px : Type} [OfNat K 0] (g : Px × Nat → K) (m : List (List K)) (_ : D) : Px × Nat → K :=
-  fun pc => (matVec m [g (pc.1, 0), g (pc.1, 1), g (pc.1, 2)]).getD pc.2 0
+/-- `_convert(·, m, None)` on an image whose positions are (pixel, channel): the 3×3 matrix times the channel vector of
+    the pixel (a requested dtype would be an elementwise `cast` afterwards) -/
+def pixConvert {Px : Type} [OfNat K 0] (cast : D → K → K) (g : Px × Nat → K) (m : List (List K)) (d : Option D) : Px × Nat → K :=
+  fun pc =>
+    let v := (matVec m [g (pc.1, 0), g (pc.1, 1), g (pc.1, 2)]).getD pc.2 0
+    match d with
+    | none => v
+    | some d => cast d v
 
-/-- … so that, pixel by pixel, the translated `rgb2xyz` IS the model's `rgb2xyzG` (matrix of the source, transfer `srgbToLinearG`) -/
+/-- … so that, pixel by pixel, the translated `rgb2xyz` (no dtype request) IS the model's `rgb2xyzG` (matrix of the source,
+    transfer `srgbToLinearG`) -/
 theorem pybody_colors_rgb2xyz_pixel {Px : Type} [OfNat K 0] (ofNat : Nat → K) (ofInt : Int → K) (flit : Nat → Nat → K)
-    (pow : K → K → K) (rgb : Px × Nat → K) (dtype : D) (px : Px) :
-    [0, 1, 2].map (fun ch => colors_rgb2xyz ofNat ofInt flit ({ pow := pow, convert := pixConvert } : ColorPrims K (Px × Nat) D)
-        rgb dtype (px, ch)) =
+    (pow : K → K → K) (cast : D → K → K) (rgb : Px × Nat → K) (px : Px) :
+    [0, 1, 2].map (fun ch => colors_rgb2xyz ofNat ofInt flit
+        ({ pow := pow, convert := pixConvert cast, astype := fun g d q => cast d (g q) } : ColorPrims K (Px × Nat) D)
+        rgb none (px, ch)) =
       rgb2xyzG (pyRgb2xyzM flit)
         (srgbToLinearG pow (ofNat 1) (ofNat 255) (flit 55 3) (flit 24 1) (flit 1292 2) (flit 4045 5) true)
         [rgb (px, 0), rgb (px, 1), rgb (px, 2)] := by
   rw [pybody_colors_rgb2xyz_eq_model]
   simp [pixConvert, rgb2xyzG, matVec, pyRgb2xyzM]
 
-/-- … and the translated `xyz2rgb` IS the model's `xyz2rgbG` (matrix of the source, encoding `linearToSrgbG`) -/
+/-- … and the translated `xyz2rgb` IS the model's `xyz2rgbG` (matrix of the source, encoding `linearToSrgbG`), followed by
+    the elementwise cast when a dtype is requested — the cast acts on the sRGB values, as `C20.castOutInt` does in the
+    driver's model of the repaired function -/
 theorem pybody_colors_xyz2rgb_pixel {Px : Type} [OfNat K 0] (ofNat : Nat → K) (ofInt : Int → K) (flit : Nat → Nat → K)
-    (pow : K → K → K) (xyz : Px × Nat → K) (dtype : D) (px : Px) :
-    [0, 1, 2].map (fun ch => colors_xyz2rgb ofNat ofInt flit ({ pow := pow, convert := pixConvert } : ColorPrims K (Px × Nat) D)
+    (pow : K → K → K) (cast : D → K → K) (xyz : Px × Nat → K) (dtype : Option D) (px : Px) :
+    [0, 1, 2].map (fun ch => colors_xyz2rgb ofNat ofInt flit
+        ({ pow := pow, convert := pixConvert cast, astype := fun g d q => cast d (g q) } : ColorPrims K (Px × Nat) D)
         xyz dtype (px, ch)) =
-      xyz2rgbG (pyXyz2rgbM flit)
+      (xyz2rgbG (pyXyz2rgbM flit)
         (linearToSrgbG pow (ofNat 1) (flit 24 1) (flit 55 3) (flit 1292 2) (flit 31308 7) (ofNat 255) true)
-        [xyz (px, 0), xyz (px, 1), xyz (px, 2)] := by
+        [xyz (px, 0), xyz (px, 1), xyz (px, 2)]).map (fun y => match dtype with | none => y | some d => cast d y) := by
   rw [pybody_colors_xyz2rgb_eq_model]
-  simp [pixConvert, xyz2rgbG, matVec, pyXyz2rgbM]
+  cases dtype <;> simp [pixConvert, xyz2rgbG, matVec, pyXyz2rgbM]
 
 end colors
 
